@@ -134,8 +134,10 @@ Definition keys_eqb : list str -> list str -> bool := list_eqb str_eqb.
     name checks of addNode and the new key names *)
 Definition merge_keys (p : pat) (n : node) (ks : list str) : option (list str) :=
   if ends_catchall p then
-    (* "free wildcard name doesn't match"; the key names are overwritten (C03-F3) *)
-    if str_eqb (last_key ks) (last_key (keys n)) then Some ks else None
+    (* "free wildcard name doesn't match", then (since fix 20f92b3, C03-F3) "wildcard keys
+       differ" as for a leaf: the key names of a free-wildcard node are no longer overwritten *)
+    if str_eqb (last_key ks) (last_key (keys n)) && (is_nil (keys n) || keys_eqb (keys n) ks)
+    then Some ks else None
   else
     match ks with
     | [] => Some (keys n)
